@@ -103,22 +103,23 @@ func vfActorsOf(t vocab.Type) []string {
 // ordering / identity / outbox clauses common to every accepted post
 func (o *vfOutbox) c05Common() {
 	w := o.w
-	if o.err != nil || !o.handled {
-		// after a failed persistence step nothing may be delivered
-		failedAt := -1
+	// after a failed persistence step nothing may be delivered, whatever the request reports
+	failedAt := -1
+	for i, e := range w.log {
+		if e.failed && failedAt < 0 && (e.kind == "db.Create" || e.kind == "db.SetOutbox" || e.kind == "db.Update") {
+			failedAt = i
+		}
+	}
+	if failedAt >= 0 {
+		vfCover("persistence-failed")
 		for i, e := range w.log {
-			if e.failed && failedAt < 0 && (e.kind == "db.Create" || e.kind == "db.SetOutbox" || e.kind == "db.Update") {
-				failedAt = i
+			if i > failedAt && (e.kind == "tp.BatchDeliver" || e.kind == "tp.Deliver") {
+				vfAssert(false, "delivered-after-a-persistence-step-failed")
 			}
 		}
-		if failedAt >= 0 {
-			vfCover("persistence-failed")
-			for i, e := range w.log {
-				if i > failedAt && (e.kind == "tp.BatchDeliver" || e.kind == "tp.Deliver") {
-					vfAssert(false, "delivered-after-a-persistence-step-failed")
-				}
-			}
-		}
+		vfAssert(o.err != nil, "failed-persistence-step-not-reported-by-the-request")
+	}
+	if o.err != nil || !o.handled {
 		return
 	}
 	vfCover("accepted")
